@@ -1,6 +1,7 @@
 (* C17 — clients receive parameter values in the declared external types.  Statements only. *)
 From Coq Require Import Sorting.Sorted Sorting.Permutation.
 From VZ Require Import Base.Prelude Model.External Proofs.ExternalP.
+From VZ Require Model.ExternalIR Gen.ExternalSrc Proofs.ExternalSrcP.
 
 (* declared external types: booleans arrive as True/False, integer-valued values as integers with the same value,
    floats and internal values unchanged *)
@@ -74,3 +75,13 @@ Theorem C17_inactive_parameter_is_an_error : forall roots tr n, NoDup (map fst t
   (forall node, Act roots tr node -> xt_name node <> n) -> trial_parameters roots tr = Err EValue.
 Proof. exact inactive_is_error. Qed.
 Print Assumptions C17_inactive_parameter_is_an_error.
+
+(* THE BREADTH-FIRST LOOP IS THE SOURCE.  Gen/ExternalSrc.v is regenerated at every run from study_config.py: the body of the
+   loop of StudyConfig._trial_to_external_values, statement by statement (the three `continue` tests, recording the value,
+   the cast, removing the parameter, queueing the children - in that order), its initialisation and condition, and the
+   length check of _pytrial_parameters.  Its meaning is the function `to_external` all theorems above are about. *)
+Theorem C17_source_loop_is_the_model : forall fuel queue remaining values external,
+  ExternalIR.to_external_of ExternalSrc.src_loop_body fuel queue remaining values external
+  = to_external fuel queue remaining values external.
+Proof. exact ExternalSrcP.src_to_external_is_to_external. Qed.
+Print Assumptions C17_source_loop_is_the_model.
